@@ -367,6 +367,75 @@ class CFG:
                 stack.append(e.dst)
         return seen
 
+    def reachable_consistent(self, start: Node, avoid_nodes: Iterable[Node] = (), avoid_edges: Iterable[Edge] = (),
+                             max_states: int = 20000) -> Set[int]:
+        """Like `reachable`, but a path may not decide the same pure test both ways: two condition nodes with the same text (a type
+        test, identity test, truth test or comparison over names and attribute paths, no call but isinstance/len) take the same
+        branch along one path, unless a name the test reads was assigned in between.  Prunes the infeasible paths created by
+        `if c and d: .. elif c: ..` and by repeated guards."""
+        from .model import norm as _norm
+        av = {n.id for n in avoid_nodes}
+        ae = {id(e) for e in avoid_edges}
+
+        def pure_text(n: Node) -> Optional[Tuple[str, frozenset]]:
+            if n.kind != 'cond' or n.ast is None:
+                return None
+            names = set()
+            for x in ast.walk(n.ast):
+                if isinstance(x, ast.Call) and not (isinstance(x.func, ast.Name) and x.func.id in ('isinstance', 'len', 'callable', 'issubclass')):
+                    return None
+                if isinstance(x, (ast.Await, ast.NamedExpr, ast.Yield, ast.Lambda)):
+                    return None
+                if isinstance(x, ast.Name):
+                    names.add(x.id)
+            return (_norm(n.ast), frozenset(names))
+        texts = {n.id: pure_text(n) for n in self.nodes}
+        writes: Dict[int, Set[str]] = {}
+        for n in self.nodes:
+            w: Set[str] = set()
+            if n.ast is not None and n.kind in ('stmt', 'next', 'with', 'handler'):
+                tgt_src = [n.ast.target] if n.kind == 'next' else [n.ast]
+                for t in tgt_src:
+                    for x in ast.walk(t):
+                        if isinstance(x, ast.Name) and isinstance(x.ctx, (ast.Store, ast.Del)):
+                            w.add(x.id)
+                        elif isinstance(x, ast.Attribute) and isinstance(x.ctx, (ast.Store, ast.Del)):
+                            w.add('<attr>')
+                        elif isinstance(x, ast.ExceptHandler) and x.name:
+                            w.add(x.name)
+                        elif isinstance(x, ast.Call):
+                            w.add('<call>')
+            writes[n.id] = w
+        seen_states: Set[Tuple[int, frozenset]] = set()
+        reached: Set[int] = set()
+        if start.id in av:
+            return reached
+        stack: List[Tuple[Node, frozenset]] = [(start, frozenset())]
+        while stack and len(seen_states) < max_states:
+            n, dec = stack.pop()
+            if (n.id, dec) in seen_states:
+                continue
+            seen_states.add((n.id, dec))
+            reached.add(n.id)
+            w = writes.get(n.id) or set()
+            if w:
+                # a decision is forgotten when a name it reads is assigned; attribute stores / calls invalidate tests on attribute paths
+                dec = frozenset((t, lab, nm) for t, lab, nm in dec if not (nm & w) and not (('<attr>' in w or '<call>' in w) and '.' in t))
+            pt = texts.get(n.id)
+            for e in self.succ[n.id]:
+                if id(e) in ae or e.dst.id in av:
+                    continue
+                nd = dec
+                if pt is not None and e.label in ('T', 'F'):
+                    other = 'F' if e.label == 'T' else 'T'
+                    if (pt[0], other, pt[1]) in dec:
+                        continue
+                    nd = dec | {(pt[0], e.label, pt[1])}
+                stack.append((e.dst, nd))
+        if len(seen_states) >= max_states:
+            return self.reachable(start, avoid_nodes=avoid_nodes, avoid_edges=avoid_edges)
+        return reached
+
     def live_nodes(self) -> Set[int]:
         return self.reachable(self.entry)
 
